@@ -303,9 +303,42 @@ def fam_tall_hashed(ctx, rng):
     k = rng.randrange(len(b)); b = b[k:] + b[:k]
     if rng.random() < 0.5:
         b = b[::-1]
+    if rng.random() < 0.6:
+        # somewhere in a site model: far along one axis and near the other, or far along both (|coordinates| <= 1e4)
+        ox = float(rng.choice([1, 1, -1]) * rng.randint(1000, 9000)); oy = float(rng.choice([0, 0, rng.randint(-9000, 9000)]))
+        if rng.random() < 0.25:
+            ox, oy = oy, ox
+        b = [(x + ox, y + oy) for x, y in b]
     if not G.certify_polygon(b):
         return
     run_entry(ctx, 'tall_comb' if upright else 'flat_comb', rng.choice(['earcut', 'mesh2d', 'face3d']), b, [])
+
+
+def fam_right_of_diagonal(ctx, rng):
+    """upright combs of more than 80 vertices (alternating tooth heights and gap depths) far along +x and near y = 0 - every x
+    coordinate exceeds every y coordinate, the shape is several times taller than wide: the z-order normalisation has to use the
+    larger of the two extents"""
+    teeth = rng.randint(21, 30); w = rng.choice([0.5, 1.0, 2.0])
+    heights = [G.dy(rng.uniform(1, 4), 3) for _ in range(rng.choice([2, 3]))]; roots = [G.dy(rng.uniform(0.5, 2.5), 3) for _ in range(rng.choice([2, 3]))]
+    b = [(0.0, 0.0)]; x = 0.0
+    for t in range(teeth):
+        top = 3.0 + heights[t % len(heights)]; root = roots[t % len(roots)]
+        b += [(x, top), (x + w, top), (x + w, root)]
+        x += 2 * w
+        if t < teeth - 1:
+            b.append((x, root))
+    b.append((x - w, 0.0))
+    b = [(y_, x_) for x_, y_ in b]                      # stand it upright (a reflection: the order is now counter-clockwise)
+    if rng.random() < 0.5:
+        b = [(-x_, y_) for x_, y_ in b][::-1]
+    ox = float(rng.randint(1000, 9000))
+    b = [(x_ + ox, y_) for x_, y_ in b]
+    k = rng.randrange(len(b)); b = b[k:] + b[:k]
+    if rng.random() < 0.5:
+        b = b[::-1]
+    if not G.certify_polygon(b):
+        return
+    run_entry(ctx, 'right_of_diagonal', rng.choice(['earcut', 'mesh2d']), b, [])
 
 
 def fam_earcut(ctx, rng):
@@ -378,7 +411,7 @@ def fam_predicates(ctx, rng):
             ctx.violation('tri.pred:point_in_triangle', '_point_in_triangle=%r expected %r' % (inside, exp), dict(desc, p=p))
 
 
-FAMILIES = [(fam_grid_holes, 40), (fam_staggered_holes, 40), (fam_split_hashed, 16), (fam_collinear_candidates, 16), (fam_tall_hashed, 12), (fam_earcut, 220), (fam_predicates, 200)]
+FAMILIES = [(fam_grid_holes, 40), (fam_staggered_holes, 40), (fam_split_hashed, 16), (fam_collinear_candidates, 16), (fam_tall_hashed, 12), (fam_right_of_diagonal, 26), (fam_earcut, 220), (fam_predicates, 200)]
 
 
 def explore(ctx):
